@@ -3,7 +3,7 @@
     the state before and after that is a preorder and is preserved by the
     primitive updates a machine step can make is preserved by [transition],
     [decrement_limit] and friends. Most frame properties are instances. *)
-From MB Require Import Model.Framework Proofs.Tactics.
+From MB Require Import Model.Framework Proofs.Tactics Proofs.ListFacts.
 Open Scope N_scope.
 
 Lemma trigger_events_unfold : forall c tp s evs t,
@@ -77,6 +77,39 @@ Proof.
   destruct (nth_error (strans st) (event_idx ev)) as [[l|]|]; inversion H; subst; lia.
 Qed.
 
+(** ** what [schedule_action] writes into a slot *)
+Definition action_shape (oa : option action) (ta : taction) : Prop :=
+  match oa, ta with
+  | Some (Cancel t), TCancel _ t' => t = t'
+  | Some (SendPadding b r _ _), TSendPadding _ _ b' r' => b = b' /\ r = r'
+  | Some (BlockOutgoing b r _ _ _), TBlockOutgoing _ _ _ b' r' => b = b' /\ r = r'
+  | Some (UpdateTimer r _ _), TUpdateTimer _ _ r' => r = r'
+  | _, _ => False
+  end.
+
+(** every timeout / duration is the clock image of a sampled value clamped to
+    one day by [sample_day_clamped] *)
+Definition day_sample (c : cfg) (v : N) : Prop :=
+  exists tp p d, v = c_from_micros (clk c) (fst (sample_day_clamped tp p d)).
+
+Definition ta_durations (c : cfg) (ta : taction) : Prop :=
+  match ta with
+  | TCancel _ _ => True
+  | TSendPadding _ t _ _ => day_sample c t
+  | TBlockOutgoing _ t d _ _ => day_sample c t /\ day_sample c d
+  | TUpdateTimer _ d _ => day_sample c d
+  end.
+
+Definition sched_ok (c : cfg) (mi : nat) (a : option taction) : Prop :=
+  match a with
+  | None => True
+  | Some ta =>
+      taction_machine ta = N.of_nat mi /\
+      ta_durations c ta /\
+      exists m st, nth_error (machines c) mi = Some m /\ In st (states m) /\
+                   action_shape (saction st) ta
+  end.
+
 (** ** the generic preorder lemma *)
 Section Preorder.
   Variable c : cfg.
@@ -88,7 +121,7 @@ Section Preorder.
   Hypothesis R_step : forall mi s, R mi s (add_step s).
   Hypothesis R_pos : forall mi s p, (pos s <= p)%nat -> R mi s (set_pos s p).
   Hypothesis R_rt : forall mi s r, R mi s (set_rt s mi r).
-  Hypothesis R_slot : forall mi s a, R mi s (set_slot s mi a).
+  Hypothesis R_slot : forall mi s a, sched_ok c mi a -> R mi s (set_slot s mi a).
   Hypothesis R_sig : forall mi s g, R mi s (set_sigp s g).
 
   Ltac rchain :=
@@ -104,19 +137,28 @@ Section Preorder.
   Proof.
     unfold schedule_action; intros s mi st s' H.
     mbind H as m Em. mbind H as st0 Est. mbind H as sl Esl.
+    apply get_ok in Em. apply getN_ok in Est. apply nthN_In in Est.
+    assert (Hok : forall ta, taction_machine ta = N.of_nat mi -> ta_durations c ta ->
+                             action_shape (saction st0) ta -> sched_ok c mi (Some ta)).
+    { intros ta H1 H2 H3. split; [exact H1|]. split; [exact H2|]. exists m, st0. auto. }
     destruct (saction st0) as [[t|b r t l|b r t d l|r d l]|] eqn:Ea.
     - inversion H; subst. eapply R_trans; [apply R_log|apply R_slot].
+      apply Hok; cbn; auto.
     - destruct (sample_day_clamped tp (pos (add_log s (LOG_SCHED, N.of_nat mi, st))) t) as [v p] eqn:E1.
-      apply sample_day_clamped_pos in E1. inversion H; subst.
-      eapply R_trans; [apply R_log|]. eapply R_trans; [apply R_pos|apply R_slot]. lia.
+      pose proof (sample_day_clamped_pos _ _ _ _ _ E1) as Hp. inversion H; subst.
+      eapply R_trans; [apply R_log|]. eapply R_trans; [apply R_pos|apply R_slot]; [cbn; lia|].
+      apply Hok; cbn; auto. do 3 eexists. rewrite E1. reflexivity.
     - destruct (sample_day_clamped tp (pos (add_log s (LOG_SCHED, N.of_nat mi, st))) t) as [v p] eqn:E1.
       destruct (sample_day_clamped tp p d) as [v2 p2] eqn:E2.
-      apply sample_day_clamped_pos in E1. apply sample_day_clamped_pos in E2. inversion H; subst.
-      eapply R_trans; [apply R_log|]. eapply R_trans; [apply R_pos|apply R_slot]. lia.
+      pose proof (sample_day_clamped_pos _ _ _ _ _ E1) as Hp.
+      pose proof (sample_day_clamped_pos _ _ _ _ _ E2) as Hp2. inversion H; subst.
+      eapply R_trans; [apply R_log|]. eapply R_trans; [apply R_pos|apply R_slot]; [cbn; lia|].
+      apply Hok; cbn; auto. split; do 3 eexists; [rewrite E1|rewrite E2]; reflexivity.
     - destruct (sample_day_clamped tp (pos (add_log s (LOG_SCHED, N.of_nat mi, st))) d) as [v p] eqn:E1.
-      apply sample_day_clamped_pos in E1. inversion H; subst.
-      eapply R_trans; [apply R_log|]. eapply R_trans; [apply R_pos|apply R_slot]. lia.
-    - inversion H; subst. eapply R_trans; [apply R_log|apply R_slot].
+      pose proof (sample_day_clamped_pos _ _ _ _ _ E1) as Hp. inversion H; subst.
+      eapply R_trans; [apply R_log|]. eapply R_trans; [apply R_pos|apply R_slot]; [cbn; lia|].
+      apply Hok; cbn; auto. do 3 eexists. rewrite E1. reflexivity.
+    - inversion H; subst. eapply R_trans; [apply R_log|apply R_slot]. exact I.
   Qed.
 
   Lemma update_counter_R : forall (trans : fstate -> nat -> event -> outcome (fstate * bool)) s mi s' al ch,
@@ -200,7 +242,7 @@ Section Preorder.
     destruct ((lim r =? 0) && action_has_limit act); [|inversion H; subst; exact H1].
     mbind H as [s2 b] E2. inversion H; subst.
     apply transition_R in E2. eapply R_trans; [exact H1|].
-    eapply R_trans; [apply R_slot|]. eapply R_trans; [apply R_log|exact E2].
+    eapply R_trans; [apply (R_slot mi s1 None); exact I|]. eapply R_trans; [apply R_log|exact E2].
   Qed.
 
   Lemma trans_dec_R : forall s mi ev dec s', trans_dec c tp s mi ev dec = Ok s' -> R mi s s'.
@@ -212,3 +254,145 @@ Section Preorder.
     - inversion H; subst; exact E.
   Qed.
 End Preorder.
+
+(** ** the call-level generic lemma: a preorder preserved by top-level machine
+    steps and by the accounting updates of [process_event] is preserved by
+    [process_event], a whole batch and the signal round *)
+Section CallLevel.
+  Variable c : cfg.
+  Variable tp : tape.
+  Variable G : fstate -> fstate -> Prop.
+  Hypothesis G_refl : forall s, G s s.
+  Hypothesis G_trans : forall s1 s2 s3, G s1 s2 -> G s2 s3 -> G s1 s3.
+  Hypothesis G_step : forall s mi ev s' b, transition FUEL c tp s mi ev = Ok (s', b) -> G s s'.
+  Hypothesis G_dec : forall s mi s', decrement_limit c tp s mi = Ok s' -> G s s'.
+  Hypothesis G_log : forall s e, G s (add_log s e).
+  Hypothesis G_sig : forall s, G s (set_sigp s None).
+  Hypothesis G_gnorm : forall s, G s (set_gnorm s (gnorm s + 1)).
+  Hypothesis G_gpad : forall s, G s (set_gpad s (gpad s + 1)).
+  Hypothesis G_begin : forall s, bactive s = false -> G s (set_blocking s (gblk s) (now s) true).
+  Hypothesis G_end : forall s g, bactive s = true ->
+    c_add (clk c) (gblk s) (c_since (clk c) (now s) (bstart s)) = Ok g ->
+    G s (set_blocking s g (bstart s) false).
+  Hypothesis G_nsent : forall s mi r, nth_error (rts s) mi = Some r ->
+    G s (set_rt s mi (rt_set_nsent r (nsent r + 1))).
+  Hypothesis G_psent : forall s mi r, nth_error (rts s) mi = Some r ->
+    G s (set_rt s mi (rt_set_psent r (psent r + 1))).
+  Hypothesis G_bdur : forall s mi r b d, nth_error (rts s) mi = Some r ->
+    c_add (clk c) (bdur r) b = Ok d -> G s (set_rt s mi (rt_set_bdur r d)).
+
+  Lemma trans_dec_G : forall s mi ev dec s', trans_dec c tp s mi ev dec = Ok s' -> G s s'.
+  Proof.
+    unfold trans_dec; intros s mi ev dec s' H.
+    mbind H as [s1 chg] E. apply G_step in E. mbind H as r Er.
+    destruct (negb chg && negb (cur r =? STATE_END) && dec).
+    - apply G_dec in H. eapply G_trans; eassumption.
+    - inversion H; subst; exact E.
+  Qed.
+
+  Lemma trans_all_G : forall ev k from s s', trans_all c tp ev k from s = Ok s' -> G s s'.
+  Proof.
+    induction k as [|k IH]; intros from s s' H; cbn [trans_all] in H.
+    - inversion H; subst; apply G_refl.
+    - mbind H as [s1 b] E. apply G_step in E. apply IH in H. eapply G_trans; eassumption.
+  Qed.
+
+  Lemma normal_sent_all_G : forall k from s s', normal_sent_all c tp k from s = Ok s' -> G s s'.
+  Proof.
+    induction k as [|k IH]; intros from s s' H; cbn [normal_sent_all] in H.
+    - inversion H; subst; apply G_refl.
+    - mbind H as r Er. apply get_ok in Er. mbind H as [s1 b] E. apply G_step in E. apply IH in H.
+      eapply G_trans; [apply G_nsent; exact Er|]. eapply G_trans; eassumption.
+  Qed.
+
+  Lemma blocking_begin_all_G : forall target k from s s',
+    blocking_begin_all c tp target k from s = Ok s' -> G s s'.
+  Proof.
+    induction k as [|k IH]; intros from s s' H; cbn [blocking_begin_all] in H.
+    - inversion H; subst; apply G_refl.
+    - mbind H as s1 E. apply trans_dec_G in E. apply IH in H. eapply G_trans; eassumption.
+  Qed.
+
+  Lemma blocking_end_all_G : forall blocked k from s s',
+    blocking_end_all c tp blocked k from s = Ok s' -> G s s'.
+  Proof.
+    induction k as [|k IH]; intros from s s' H; cbn [blocking_end_all] in H.
+    - inversion H; subst; apply G_refl.
+    - mbind H as r Er. apply get_ok in Er. mbind H as s0 E0. mbind H as [s1 b] E. apply G_step in E.
+      apply IH in H.
+      assert (G s s0).
+      { destruct (negb (blocked =? 0)); [|inversion E0; subst; apply G_refl].
+        mbind E0 as d Ed. inversion E0; subst. eapply G_bdur; eauto. }
+      eapply G_trans; [eassumption|]. eapply G_trans; eassumption.
+  Qed.
+
+  Lemma process_event_G : forall s e s', process_event c tp s e = Ok s' -> G s s'.
+  Proof.
+    unfold process_event; intros s e s' H.
+    destruct e as [ | | | |m| |m| |m|m].
+    - eapply trans_all_G; eauto.
+    - eapply trans_all_G; eauto.
+    - eapply trans_all_G; eauto.
+    - apply normal_sent_all_G in H. eapply G_trans; [apply G_gnorm|exact H].
+    - destruct (N.of_nat (nmach s) <=? m); [inversion H; subst; apply G_gpad|].
+      mbind H as r Er. apply get_ok in Er. apply trans_dec_G in H.
+      eapply G_trans; [apply G_gpad|]. eapply G_trans; [apply G_psent; exact Er|exact H].
+    - eapply trans_all_G; eauto.
+    - apply blocking_begin_all_G in H. destruct (bactive s) eqn:Ea; [exact H|].
+      eapply G_trans; [apply G_begin; exact Ea|exact H].
+    - mbind H as [s0 b] E0. apply blocking_end_all_G in H.
+      assert (G s s0).
+      { destruct (bactive s) eqn:Ea; [|inversion E0; subst; apply G_refl].
+        mbind E0 as g Eg. inversion E0; subst. apply G_end; auto. }
+      eapply G_trans; eassumption.
+    - destruct (N.of_nat (nmach s) <=? m); [inversion H; subst; apply G_refl|].
+      eapply trans_dec_G; eauto.
+    - destruct (N.of_nat (nmach s) <=? m); [inversion H; subst; apply G_refl|].
+      mbind H as [s1 b] E. inversion H; subst. eapply G_step; eauto.
+  Qed.
+
+  Lemma events_G : forall evs s s', foldM (process_event c tp) evs s = Ok s' -> G s s'.
+  Proof.
+    induction evs as [|e evs IH]; intros s s' H; cbn [foldM] in H.
+    - inversion H; subst; apply G_refl.
+    - mbind H as s1 E. apply process_event_G in E. apply IH in H. eapply G_trans; eassumption.
+  Qed.
+
+  Lemma signal_all_G : forall excluded k from s s',
+    signal_all c tp excluded k from s = Ok s' -> G s s'.
+  Proof.
+    induction k as [|k IH]; intros from s s' H; cbn [signal_all] in H.
+    - inversion H; subst; apply G_refl.
+    - mbind H as s1 E. apply IH in H.
+      assert (G s s1).
+      { destruct (match excluded with Some x => Nat.eqb x from | None => false end);
+          [inversion E; subst; apply G_refl|].
+        mbind E as [s2 b] E2. inversion E; subst. apply G_step in E2.
+        eapply G_trans; [apply G_log|exact E2]. }
+      eapply G_trans; eassumption.
+  Qed.
+
+  Lemma signal_round_G : forall s s', signal_round c tp s = Ok s' -> G s s'.
+  Proof.
+    unfold signal_round; intros s s' H.
+    destruct (sigp s) as [g|]; [|inversion H; subst; apply G_refl].
+    mbind H as s1 E1. apply signal_all_G in E1. mbind H as s2 E2. inversion H; subst.
+    assert (G s1 s2).
+    { destruct (sigp s1) as [g1|]; [|inversion E2; subst; apply G_refl].
+      destruct g as [|x]; [inversion E2; subst; apply G_refl|].
+      mbind E2 as [s3 b] E3. inversion E2; subst. apply G_step in E3.
+      eapply G_trans; [apply G_sig|]. eapply G_trans; [apply G_log|exact E3]. }
+    eapply G_trans; [apply G_sig|]. eapply G_trans; [exact E1|].
+    eapply G_trans; [eassumption|apply G_sig].
+  Qed.
+
+  Lemma trigger_events_G : forall s evs t s' acts,
+    trigger_events c tp s evs t = Ok (s', acts) ->
+    G (begin_call s t) s' /\ acts = collect_actions (slots s').
+  Proof.
+    unfold trigger_events; intros s evs t s' acts H.
+    mbind H as s1 E1. mbind H as s2 E2. inversion H; subst.
+    apply events_G in E1. apply signal_round_G in E2. split; [|reflexivity].
+    eapply G_trans; eassumption.
+  Qed.
+End CallLevel.
